@@ -168,6 +168,7 @@ def ring(e, st, width=64):
 
 
 MW = 80      # width of "mathematical" values of sums/differences of atoms
+SW = 100     # width of values scaled to the fixed-point representation
 
 
 def math(e, st):
@@ -180,6 +181,24 @@ def math(e, st):
         a, b = math(e.l, st), math(e.r, st)
         return a + b if e.op == "+" else a - b
     raise ValueError(e.label())
+
+
+def scaled(e, st):
+    """exact value times 100000 (the fixed-point representation), SW bits"""
+    if isinstance(e, Const):
+        v = round(e.value * FIXED) if isinstance(e.value, float) else e.value * FIXED
+        return z3.BitVecVal(v, SW)
+    if isinstance(e, (Reg, Loc)):
+        v = z3.SignExt(SW - MW, st.atom(e, MW))
+        return v if e.fixed else v * FIXED
+    raise ValueError(e.label())
+
+
+def pyscaled(e, regs, stack, layout):
+    if isinstance(e, Const):
+        return round(e.value * FIXED) if isinstance(e.value, float) else e.value * FIXED
+    v = pyatom(e, regs, stack, layout)
+    return v if e.fixed else v * FIXED
 
 
 def fits(v, bits, signed):
@@ -238,15 +257,28 @@ class Cmp:
     def atoms(self):
         return self.l.atoms() + self.r.atoms()
 
+    def mixed_fixed(self):
+        return bool(getattr(self.l, "fixed", False) or getattr(self.r, "fixed", False))
+
     def spec(self, st):
         """(truth, FITS): both compared values fit the narrowest width
-        involved (signed range if either side is signed)"""
+        involved (signed range if either side is signed).  If one side is
+        fixed-point the comparison is on the exact decimal values, i.e. on the
+        values scaled by 100000, which must fit the narrowest width too"""
+        if self.mixed_fixed():
+            a, b = scaled(self.l, st), scaled(self.r, st)
+            sg = self.l.signed or self.r.signed
+            W = 32 if min(min_size(self.l), min_size(self.r)) <= 4 else 64
+            return self.OPS[self.op](a, b), z3.And(fits(a, W, sg), fits(b, W, sg))
         a, b = math(self.l, st), math(self.r, st)
         W = 32 if min(min_size(self.l), min_size(self.r)) <= 4 else 64
         sg = self.l.signed or self.r.signed
         return self.OPS[self.op](a, b), z3.And(fits(a, W, sg), fits(b, W, sg))
 
     def py(self, regs, stack, layout):
+        if self.mixed_fixed():
+            return self.OPS[self.op](pyscaled(self.l, regs, stack, layout),
+                                     pyscaled(self.r, regs, stack, layout))
         return self.OPS[self.op](pyval(self.l, regs, stack, layout), pyval(self.r, regs, stack, layout))
 
 
